@@ -66,3 +66,61 @@ Proof. exact @no_exn_under_graph_ok_refuted. Qed.
 Print Assumptions C17_total.
 Print Assumptions C17_parsed_instructions_have_arity.
 Print Assumptions C17_retsub_in_main_refuted.
+
+(* ------------------------------------------------------------------------------------------------------------
+   Extension (joint pass over all keys): theorems from Lemmas/JointGenLemmas.v and Lemmas/JointTotal.v.  tealer iterates
+   ONE worklist for all keys of an analysis; the per-key model is related to that joint run here.  *)
+From Coq Require Import String List NArith ZArith Bool Arith.
+From Tealer Require Import JointGenLemmas JointTotal.
+
+(* the joint pass terminates within joint_bound and agrees with the per-key solver *)
+Theorem C17_joint_pass_total_peq :
+      forall (T : Type) (t_eqb : T -> T -> bool) (univ null : string -> T)
+         (union inter : string -> T -> T -> T)
+         (single : string -> Syntax.instr -> nat -> list StackAst.sval -> T * T) 
+         (f : Analysis.func),
+       TotalSolver.defined_okb f = true ->
+       SolverLemmas.cover_prev_P f ->
+       GraphGenLemmas.main_name_fresh f ->
+       forall L : forall k : string, TotalSolver.TLaws T t_eqb (univ k) (null k) (union k) (inter k),
+       (forall (k : string) (pb : Cfg.block) (s : nat) (ec : T),
+        In pb (Analysis.fn_blocks f) ->
+        Analysis.edge_constraint T (univ k) (null k) (union k) (inter k) (single k) f pb s = Some ec ->
+        TotalSolver.tl_okc T t_eqb (univ k) (null k) (union k) (inter k) (L k) ec) ->
+       forall (k : string) (leq : T -> T -> Prop) (keys : list string) (fuel : nat) (d : SolverGen.gdict T),
+       key_order T t_eqb (null k) (union k) (inter k) leq ->
+       joint_graph_ok f ->
+       NoDup (SolverLemmas.ids f) ->
+       (forall l : list nat, In l (Analysis.postorders f) -> incl l (SolverLemmas.ids f)) ->
+       NoDup keys ->
+       In k keys ->
+       (forall k0 : string, In k0 keys -> bc_ok T t_eqb univ null union inter f L d k0) ->
+       joint_bound T t_eqb univ null union inter f L keys <= fuel ->
+       exists (d' : SolverGen.gdict T) (lo : list (nat * T)),
+         JointGen.joint_pass_gen T t_eqb univ null union inter single f fuel keys (Analysis.postorders f) d =
+         Some (Some d') /\
+         Domains.solve T t_eqb (univ k) (null k) (union k) (inter k) (single k) f fuel
+           (SolverGen.ddict_get T d k) = Analysis.Done lo /\
+         SolverLemmas.peq T t_eqb (SolverGen.ddict_get T d' k) lo.
+Proof. exact @joint_pass_total_peq. Qed.
+
+(* the joint pass may need more fuel than every per-key run *)
+Theorem C17_joint_same_fuel_refuted :
+      exists (f : Analysis.func) (bcs : SolverGen.gdict nat) (keys : list string) 
+       (fuel : nat),
+         NoDup keys /\
+         SolverGen.forward_analyis_gen nat Nat.eqb (fun _ : string => 9) (fun _ : string => 0)
+           (fun _ : string => Nat.max) (fun _ : string => Nat.min)
+           (fun (_ : string) (_ : Syntax.instr) (_ : nat) (_ : list StackAst.sval) => (9, 9)) f fuel keys
+           (Analysis.forward_worklist f) bcs = Some None /\
+         (forall k : string,
+          In k keys ->
+          exists ro : Analysis.state nat,
+            Analysis.forward nat Nat.eqb 9 0 Nat.max Nat.min
+              (fun (_ : Syntax.instr) (_ : nat) (_ : list StackAst.sval) => (9, 9)) f
+              (Analysis.lookup nat (SolverGen.ddict_get nat bcs k)) fuel (Analysis.forward_worklist f)
+              (SolverLemmas.fwd_st0 nat 0 f) = Analysis.Done ro).
+Proof. exact @joint_same_fuel_refuted. Qed.
+
+Print Assumptions C17_joint_pass_total_peq.
+Print Assumptions C17_joint_same_fuel_refuted.
